@@ -353,7 +353,7 @@ class Xfrm(NetlinkProtocol):
             spi=create_byte_array(spi))
         try:
             cls.send_recv(XFRM_MSG_DELSA, (NLM_F_REQUEST | NLM_F_ACK), xfrm_id)
-        except NetlinkError as ex:
+        except (NetlinkError, OSError) as ex:
             logging.warning(f'Could not delete IPsec SA with SPI: {spi.hex()}. {ex}')
 
     @classmethod
